@@ -265,8 +265,15 @@ Fixpoint merge_join (fuel : nat) (left_outer : bool) (L R : side) : list (row * 
           | Eq =>
               let (buf, R'') := span (fun r' => cmp_is_eq (cmp_cell (fst l) (fst r'))) R' in
               let (grp, L'') := span (fun l' => cmp_is_eq (cmp_cell (fst l) (fst l'))) L' in
+              (* LEFT JOIN only: a left row of the group that matched nothing is returned null-extended from inside
+                 the match stage with matchPos reset to 0; when the lookahead buffer is empty the next call of Next
+                 therefore starts at the compare stage again, compares equal and calls fillMatchBuf a second time,
+                 which overwrites nextRightKey: one right row following the group is lost for every such left row
+                 but the last.  Keys compare equal while the join condition fails only for NULL keys. *)
+              let lost := if left_outer && (match buf with [] => true | _ => false end) && negb (jf l r)
+                          then length grp else O in
               flat_map (fun l' => emit left_outer l' (filter (jf l') (buf ++ [r]))) (l :: grp)
-              ++ merge_join fuel' left_outer L'' R''
+              ++ merge_join fuel' left_outer L'' (skipn lost R'')
           end
       end
   end.
